@@ -652,6 +652,37 @@ def rule_r5(prog, res) -> None:
                 res.violation("C05.R5", ss, ss.node, f"{ci.name}.__setstate__ restores only {sorted(read)} of the state {sorted(expected)}: the rest silently takes the constructor default in the receiving process", key_extra=f"setstate-partial-{ci.name}")
             else:
                 res.ok("C05.R5", res.site(ss), f"restores {sorted(read)}")
+    # __reduce__ / __reduce_ex__ / __getnewargs__: what is pickled are the arguments of the reconstructing call (and
+    # an optional state); every data attribute of the instance must travel in it AS IT IS — a payload that is derived
+    # through a method of the instance (e.g. a to_dict() meant for configuration files) may regenerate an attribute in
+    # the receiving process from defaults (other cosmology -> other bin edges) instead of transporting it
+    for ci in prog.classes:
+        for mname in ("__reduce__", "__reduce_ex__", "__getnewargs__", "__getnewargs_ex__"):
+            m = ci.methods.get(mname)
+            if m is None:
+                continue
+            n += 1
+            res.touch(m)
+            slots = [s_ for s_ in prog.all_slots(ci) if not s_.startswith("__")] or [a for a in getattr(ci, "inst_attrs", {}) if not a.startswith("__")]
+            rets = [p for p in symx.explore(prog, m, inline=symx.inline_private_helpers(prog)) if p.outcome == "return" and p.value is not None]
+            for p in rets:
+                payload = p.value.elts[1:] if isinstance(p.value, ast.Tuple) and mname.startswith("__reduce") else [p.value]
+                direct = {y.attr for e in payload for y in ast.walk(e) if isinstance(y, ast.Attribute) and isinstance(y.value, ast.Name) and y.value.id == "self" and not any(isinstance(c_, ast.Call) and c_.func is y for c_ in ast.walk(e))}
+                derived = [unparse(c_)[:40] for e in payload for c_ in ast.walk(e) if isinstance(c_, ast.Call) and isinstance(c_.func, ast.Attribute) and isinstance(c_.func.value, ast.Name) and c_.func.value.id == "self"]
+                missing = [s_ for s_ in slots if s_ not in direct]
+                if missing and derived:
+                    res.violation(
+                        "C05.R5",
+                        m,
+                        p.node or m.node,
+                        f"{ci.name}.{mname} pickles {derived} instead of the attributes {missing} themselves: the instance that arrives in a worker process is rebuilt from derived parameters "
+                        "(and the defaults of the reconstructing call), not a copy of what was configured",
+                        key_extra=f"reduce-derived-{ci.name}",
+                    )
+                elif missing:
+                    res.violation("C05.R5", m, p.node or m.node, f"{ci.name}.{mname} leaves out {missing}", key_extra=f"reduce-missing-{ci.name}")
+                else:
+                    res.ok("C05.R5", res.site(m), f"every data attribute {slots} travels in the pickled payload")
     if n < 3:
         raise AnalysisError(f"C05.R5: only {n} classes with a pickle state protocol found, minimum 3")
 
